@@ -70,7 +70,8 @@ def cases(tier):
         cs.append({"id": f"bool/cmp/{op}", "h": "bool", "kind": "cmp", "op": op})
     for k in ("and", "or", "not", "cmp_and_cmp", "arith_cmp", "defined_yes", "defined_no", "paren"):
         cs.append({"id": f"bool/{k}", "h": "bool", "kind": k})
-    for k in ("chain", "multi_per_line", "shadow_order", "options"):
+    for k in ("chain", "multi_per_line", "shadow_order", "options", "options_two_blocks", "options_override",
+              "options_use_constants"):
         cs.append({"id": f"const/{k}", "h": "const", "kind": k})
     for k in STMTS:
         cs.append({"id": f"stmt/{k}", "h": "stmt", "kind": k, "weight": 2})
@@ -303,6 +304,30 @@ def h_const(env, c):
         opt = p._bd_file["options"]
         env.prove(opt["flags"] == l[0], "const.option_value")
         env.prove(opt["buildNumber"] == l[1] + 1, "const.option_expression")
+    elif k == "options_two_blocks":
+        # the language allows several options blocks (docs/usage/elf2sb.md): every definition reaches the result
+        text = ("options {\n flags = 1000;\n buildNumber = 1001;\n}\nconstants {\n a = 1002;\n}\n"
+                "options {\n secureBinaryVersion = 1003;\n}\noptions {\n}\nsection (0) {\n}\n")
+        p, l = _parse(env, text, 4)
+        opt = p._bd_file["options"]
+        env.prove(env.And("flags" in opt, "buildNumber" in opt, "secureBinaryVersion" in opt, len(opt) == 3),
+                  "const.options_of_every_block_kept")
+        env.prove(env.And(opt.get("flags") == l[0], opt.get("buildNumber") == l[1], opt.get("secureBinaryVersion") == l[3]),
+                  "const.options_of_every_block_have_their_values")
+    elif k == "options_override":
+        text = "options {\n flags = 1000;\n buildNumber = 1001;\n}\noptions {\n flags = 1002;\n}\nsection (0) {\n}\n"
+        p, l = _parse(env, text, 3)
+        opt = p._bd_file["options"]
+        env.prove(env.And(opt.get("flags") == l[2], opt.get("buildNumber") == l[1], len(opt) == 2),
+                  "const.later_options_block_redefines_only_what_it_names")
+    elif k == "options_use_constants":
+        text = ("constants {\n a = 1000;\n}\noptions {\n flags = a & 1001;\n}\nconstants {\n b = a - 1002;\n}\n"
+                "options {\n buildNumber = b;\n}\nsection (0) {\n jump b;\n}\n")
+        p, l = _parse(env, text, 3)
+        opt = p._bd_file["options"]
+        env.prove(env.And(opt.get("flags") == (l[0] & l[1]), opt.get("buildNumber") == l[0] - l[2]),
+                  "const.options_resolve_constants_of_earlier_blocks")
+        env.prove(p._bd_file["sections"][0]["commands"][0]["jump"]["address"] == l[0] - l[2], "const.constant_used_as_operand")
 
 
 # statement skeletons: text, number of literals, literal ranges, checker(env, helper-built command, literals)
